@@ -353,7 +353,60 @@ func (p *Program) mwExpandFacts(fs []Fact) []Fact {
 	for _, f := range fs {
 		add(f, 0)
 	}
+	// comparisons of two booleans: `a == b` known true / `a != b` known false says the operands agree,
+	// the opposite polarity says they differ; once the facts tell the value of one operand they tell
+	// the value of the other (`if a != b { return }; if a { /* b holds */ }`). Iterated, because the
+	// derived fact may decide a further comparison or a materialised phi.
+	for round := 0; round < 8; round++ {
+		n := len(out)
+		for _, f := range out.list() {
+			a, b, agree, ok := mwBoolComparison(f)
+			if !ok {
+				continue
+			}
+			for _, side := range [][2]ssa.Value{{a, b}, {b, a}} {
+				if val, known := p.mwKnownBool(out, side[0]); known {
+					add(p.mkFact(side[1], val == agree), 0)
+				}
+			}
+		}
+		if len(out) == n {
+			break
+		}
+	}
 	return out.list()
+}
+
+// mwBoolComparison: the fact is about `a == b` / `a != b` with both operands of boolean type; agree
+// tells whether the fact says the operands have the same value.
+func mwBoolComparison(f Fact) (a, b ssa.Value, agree, ok bool) {
+	bin, isBin := f.Cond.(*ssa.BinOp)
+	if !isBin || (bin.Op != token.EQL && bin.Op != token.NEQ) {
+		return nil, nil, false, false
+	}
+	isBool := func(v ssa.Value) bool {
+		bt, isBasic := v.Type().Underlying().(*types.Basic)
+		return isBasic && bt.Info()&types.IsBoolean != 0
+	}
+	if !isBool(bin.X) || !isBool(bin.Y) {
+		return nil, nil, false, false
+	}
+	return bin.X, bin.Y, (bin.Op == token.EQL) == f.Pol, true
+}
+
+// mwKnownBool: the value of boolean v according to the fact set (constants included).
+func (p *Program) mwKnownBool(fs factSet, v ssa.Value) (val, known bool) {
+	if c, isConst := constBool(v); isConst {
+		return c, true
+	}
+	t := p.mkFact(v, true) // "v is true" in normalised form
+	if _, ok := fs[t.key]; ok {
+		return true, true
+	}
+	if _, ok := fs[p.mkFact(v, false).key]; ok {
+		return false, true
+	}
+	return false, false
 }
 
 // mwPhiEdgeFacts: the boolean phi is known to have evaluated to pol; returns, per incoming edge that
